@@ -3,7 +3,7 @@ PROP = dict(
     module="M3d.Props.C05",
     corr=dict(quick=150, thorough=1000),
     gen=["Kernels"],
-    tie_modules=["M3d.Lemmas.KernelsTieTransform"],
+    tie_modules=["M3d.Lemmas.KernelsTieTransform", "M3d.Lemmas.KernelsTieSqueeze"],
     corr_theorems=(
         "faithful kinds (apply bounds invdesc appdist solidr inner outer nilcb sphin cbounds vmball mat* 'pinch apply/invdesc') compare the "
         "model of each Go method with the method; property kinds print the right-hand sides of M3d.C05.inverse_apply/apply_inverse "
@@ -18,7 +18,19 @@ PROP = dict(
         "single-wrap theorem for JoinedTransform{t1..tk}, justified by M3d.C05.nested_solid / nested_solid_conj / nested_sdf_metaball / "
         "nested_collider / nested_collider_conj (+ nested_solid_sdf_metaball_2d, nested_collider_2d): the nested wrapper equals the wrapper "
         "of the join in application order; prop:c05/nested_collider_hit_points and prop:c05/nested_collider_bounds evaluate the conjugacy "
-        "directly on the real outputs (hit points are the images of the inner hit points under t1;..;tk applied one by one)"
+        "directly on the real outputs (hit points are the images of the inner hit points under t1;..;tk applied one by one); "
+        "hist3 / hist2 kinds (one case = one HISTORY of a transform object: 'inv i' = objs[i].Inverse(), 'mut i path edit' = in-place edit "
+        "(field stores, Matrix.Scale, *Matrix = m, Matrix.InvertInPlace, Matrix = &m, j[k] = x, append, swap), 'snap i' = wrappers built and "
+        "kept, 'o kind ...' = any single-object kind on '@i' (the object as it is now) or '%w' (kept wrappers)): the driver runs the value "
+        "semantics M3d.Tf.HStep.run (every object has a current value; inv appends Xf.inverse of the CURRENT value; an edit changes the "
+        "edited object only) and answers the 'o' steps with the right-hand sides listed above for that current value; justified by "
+        "M3d.C05.inverse_fresh (Inverse() on the heap: appends cells only, result = inverse of what the receiver denotes now, read from "
+        "appended cells only), inverse_not_aliased (edits of the result never reach older objects and vice versa), inverse_after_history "
+        "(after ANY heap history - in-place stores into any object, allocations, Inverse() calls - Inverse() of object i is the inverse of "
+        "its current value and changes no existing object), history_edits_are_local, history_value_semantics + history_roundtrip (the heap "
+        "run of every history of Inverse() calls / wrapper constructions / flat edits represents exactly the state the value semantics "
+        "computes, and Inverse() now undoes the object as it is now in both orders), and their _2d twins; "
+        "prop:c05/history_marching_cubes_conj evaluates MarchingCubesConj after an in-place edit against a fresh transform with the same matrix"
     ),
     rule=(
         "exact mode: every case is a line of small dyadic rationals; transforms are random primitives or (nested) joins of 0-4 of "
@@ -33,7 +45,15 @@ PROP = dict(
         "float64 operations stay exact; textbook cases translate/scale and translate/quarter-turn in both orders; #stat nestN.non-commuting "
         "counts instances whose members do not commute at a probe point. small-scale matrices: integer matrices x 2^-k (k=14..30, |det| < 1e-12) "
         "in exact mode through mat3/mat2 inv/invmul/mulcolinv, roundtrip, invdesc, solid, solidr, encl, nested solids; rotation x shear x "
-        "1e-5..1e-9 in bits mode through finvdesc, fapply, fsolidr"
+        "1e-5..1e-9 in bits mode through finvdesc, fapply, fsolidr. histories (hist3/hist2, 180 per dimension and run at quick): "
+        "5 scripted scenarios on a Matrix transform, each with its own site (used then Matrix.Scale'd / overwritten / inverted in place and "
+        "used again; a frame loop overwriting *Matrix; the matrix of a RETURNED inverse edited, then the source used again; wrappers kept "
+        "while a returned inverse is edited; a matrix inside a JoinedTransform) and random histories of 3-9 steps over up to 6 objects "
+        "(the start object is a matrix transform, a join containing matrix transforms, a reflecting DistTransform join or any transform; "
+        "steps: observation 35%, in-place edit 25% (half of them aimed at a matrix), Inverse() 15%, snap 10%, query of kept wrappers 15%); "
+        "kept wrappers are only queried while their object has not been edited since they were built (the library does not say what a "
+        "wrapper built earlier does after such an edit); #stat histN.pattern.use-edit-use / edit-returned-inverse-then-use-source count the "
+        "histories that contain the two critical patterns (87 and 26 of 180 at seed 2), histN.step.* the step kinds"
     ),
     trusted=[
         "regenerated, not hand-written: lean/M3d/Gen/Kernels.lean (Go->Lean translator harness/hlib/go2lean, run on the current "
@@ -50,6 +70,16 @@ PROP = dict(
         "wrapped Solid/SDF/Collider/Metaball are arbitrary functions (parameters of the model); their own correctness is C03/C06/C07",
         "math.Cos/math.Sin are inputs (c, s) of the rotation model under the hypothesis c^2+s^2 = 1 (true of real cos/sin, only approximately of the doubles)",
         "SmartSqueeze.Transform: termination, validity, monotonicity, inverse, the shape of the pieces (ascending, inside the bounds, disjoint from every unsqueezable/pinch range, covering everything else) and the piecewise-linear action (slope = ratio on squeezed intervals, 1 elsewhere) are proved about the model, which the 'smart' kind ties to the code member by member; pinches inside it are AxisPinch members (math.Pow a parameter); prop:c05/smart_squeeze_piecewise_linear re-checks the slopes on the real code; the meshing inside MarchingCubesConj is not modelled (C01/C02), its solid and vertex map are; prop:c05/marching_cubes_conj checks the glue",
+        "histories: the heap semantics (M3d/Model/TransformHist.lean: cells, addresses, allocation in Inverse()) is a model of Go's "
+        "pointers/slices (a slice is one cell holding the member addresses; append is a store); it is tied to the code by the hist3/hist2 "
+        "correspondence through the value semantics it is proved equal to; the simulation theorem covers flat edits (struct fields, the matrix "
+        "behind a Matrix transform), slice stores are covered by the general heap theorems (inverse_after_history, history_edits_are_local) only; "
+        "mutable state the library documents as such: the exported fields Offset/Scale/Matrix/Min/Max/Ratio, the in-place mutators of "
+        "Matrix2/Matrix3 and slice elements of JoinedTransform; the result of Rotation() has no state a caller can reach and is treated as "
+        "immutable; what a wrapper or an Inverse() result obtained EARLIER does after its source is edited is not specified by the property "
+        "and not checked (transformedCollider keeps the live transform next to a snapshot of the inverse)",
+        "regenerated SmartSqueeze.checkSqueezed = the model's scanRanges (M3d.KernelsTie.Squeeze.checkSqueezed_eq) under the hypothesis that "
+        "every range start is below HasInf.posInf; Matrix2Transform/Matrix3Transform.ApplyBounds = matrixBounds (matrix_bounds, matrix_bounds2)",
         "nested colliders: nested_collider assumes the wrapped collider reports normals whose squared length is a perfect square (unit normals) and sqrtF exact on perfect squares (true of the driver's sqrtQ and of the real square root); normals of other lengths are renormalised at every level by the code and by the model alike (faithful kinds nest.outer)",
     ],
     assumptions=[
@@ -65,13 +95,16 @@ PROP = dict(
         "point corresponds with the same parameter, hits = inner hits with same parameter/count/Extra and unit normal = normalised L n = "
         "factor^2 L^-T n, nil callback safe, SphereCollision conjugacy. Wrappers applied to wrappers (any depth) equal ONE wrapper of "
         "JoinedTransform{t1..tn} in application order - solids (any invertible members), SDFs, metaballs, colliders (DistTransform members) - in "
-        "2-D and 3-D, so all of the above holds for nested instances with the composite transform. SmartSqueeze.Transform terminates, "
+        "2-D and 3-D, so all of the above holds for nested instances with the composite transform. Histories of one mutable transform "
+        "object: on the heap model of the Go pointers Inverse() only allocates, returns the inverse of the receiver AS IT IS NOW in cells "
+        "of its own, and edits reach only the object they are addressed to - after every history (2-D and 3-D), so every law above holds "
+        "at every moment of an object's life, tied by running whole histories on the real code. SmartSqueeze.Transform terminates, "
         "squeezes exactly the material outside the unsqueezable ranges and acts with slope ratio / 1. The model is tied to /repo on every run by "
-        "regenerated definitions (61 tie theorems) and exact-mode correspondence "
+        "regenerated definitions (63 + checkSqueezed tie theorems) and exact-mode correspondence "
         "with the real Go code on all these methods in 2D and 3D and by bit-exact Float runs on arbitrary doubles (rotations, pinch powers)."
     ),
     level_note=(
-        "Proved about lean/M3d/Model/{Transform,Transform2,TransformNest,SmartSqueeze}.lean; exactness over fields, not floats (rounding error is not bounded; "
+        "Proved about lean/M3d/Model/{Transform,Transform2,TransformNest,SmartSqueeze,TransformHist,TransformHist2}.lean; exactness over fields, not floats (rounding error is not bounded; "
         "the bits mode shows the model performs the same float operations). cos/sin/pow are inputs under algebraic hypotheses. Meshing itself is C01/C02."
     ),
 )
